@@ -42,7 +42,7 @@ DEFAULTS: Dict[str, Any] = dict(
     max_depth=3, ops_per_step=(2, 5), big_corr=False, autograd=False, bwd_annotation=True, step_gap=(0, 1, 1, 7),
     pre_ops=1, post_ops=1, first_step=None, file_order="time", p_plain_rt=0.08, kernel_durs=(0, 1, 5, 20, 60),
     launch_lat=(0, 0, 1, 3, 10), queue_lat=(0, 0, 1, 5, 40), device_pid=0, repeat_names=False, annotation_nest=False,
-    p_leaf_children=(0, 3), ops_pool=None, p_unlaunched=0.0, sync_straddle=False, source_counters=False, outer_frame=False, corr_zero=False, small_corr=False, tid_base=None, tid_desc=False, post_launch=False, exotic_launch=False,
+    p_leaf_children=(0, 3), ops_pool=None, p_unlaunched=0.0, sync_straddle=False, source_counters=False, outer_frame=False, corr_zero=False, small_corr=False, tid_base=None, tid_desc=False, post_launch=False, exotic_launch=False, multi_process=False,
 )
 
 
@@ -117,7 +117,7 @@ class Sim:
             # launch APIs beyond the handful most analyses know by name; the correlation link is what identifies the launch call
             rname = {"k": self.r.choice(["cudaLaunchCooperativeKernel", "cudaGraphLaunch"]), "cpy": self.r.choice(["cudaMemcpy", "cudaMemcpy2DAsync"]),
                      "set": "cudaMemset"}[kind]
-        L = self.X("cuda_runtime" if rname != "cuLaunchKernel" else "cuda_driver", rname, self.host_pid, th["tid"], ts, dur,
+        L = self.X("cuda_runtime" if rname != "cuLaunchKernel" else "cuda_driver", rname, th.get("pid", self.host_pid), th["tid"], ts, dur,
                    {"correlation": c, "cbid": 211, "External id": c})
         if self.r.random() < p["p_unlaunched"]:
             # a launch call whose kernel never shows up in the trace (e.g. profiling stopped)
@@ -150,7 +150,7 @@ class Sim:
         c = self.newcorr()
         ts = th["t"]
         end = max(ts + 3, self.free_at[s] + 1)
-        H = self.X("cuda_runtime", "cudaStreamSynchronize", self.host_pid, th["tid"], ts, end - ts, {"correlation": c, "cbid": 131, "External id": c})
+        H = self.X("cuda_runtime", "cudaStreamSynchronize", th.get("pid", self.host_pid), th["tid"], ts, end - ts, {"correlation": c, "cbid": 131, "External id": c})
         S = self.X("cuda_sync", "Stream Sync", self.p["device_pid"], s, ts + 1, end - ts - 2,
                    {"correlation": c, "stream": s, "device": self.p["device_pid"], "cuda_sync_kind": "Stream Sync", "context": 1, "External id": c})
         self.sync_until[s] = max(self.sync_until[s], end)
@@ -161,7 +161,7 @@ class Sim:
         c = self.newcorr()
         ts = th["t"]
         end = max([ts + 3] + [v + 1 for v in self.free_at.values()])
-        H = self.X("cuda_runtime", "cudaDeviceSynchronize", self.host_pid, th["tid"], ts, end - ts, {"correlation": c, "cbid": 165, "External id": c})
+        H = self.X("cuda_runtime", "cudaDeviceSynchronize", th.get("pid", self.host_pid), th["tid"], ts, end - ts, {"correlation": c, "cbid": 165, "External id": c})
         S = self.X("cuda_sync", "Context Sync", self.p["device_pid"], -1, ts + 1, end - ts - 2,
                    {"correlation": c, "stream": -1, "device": self.p["device_pid"], "cuda_sync_kind": "Context Sync", "context": 1, "External id": c})
         self.dev_sync_until = max(self.dev_sync_until, end)
@@ -172,7 +172,7 @@ class Sim:
         s = self.r.choice(th["streams"])
         c = self.newcorr()
         ts = th["t"]
-        self.X("cuda_runtime", "cudaEventRecord", self.host_pid, th["tid"], ts, 2, {"correlation": c, "cbid": 135, "External id": c})
+        self.X("cuda_runtime", "cudaEventRecord", th.get("pid", self.host_pid), th["tid"], ts, 2, {"correlation": c, "cbid": 135, "External id": c})
         self.n_event_ids += 1
         self.records[self.n_event_ids] = {"stream": s, "corr": c, "done": self.free_at[s], "launch": self.last_launch_on[s]}
         th["t"] = ts + 2 + self.d(0, 2)
@@ -188,7 +188,7 @@ class Sim:
         s2 = self.r.choice(cands)
         c = self.newcorr()
         ts = th["t"]
-        H = self.X("cuda_runtime", "cudaStreamWaitEvent", self.host_pid, th["tid"], ts, 3, {"correlation": c, "cbid": 147, "External id": c})
+        H = self.X("cuda_runtime", "cudaStreamWaitEvent", th.get("pid", self.host_pid), th["tid"], ts, 3, {"correlation": c, "cbid": 147, "External id": c})
         S = self.X("cuda_sync", "Stream Wait Event", self.p["device_pid"], s2, ts + 1, 1,
                    {"correlation": c, "stream": s2, "device": self.p["device_pid"], "wait_on_stream": rec["stream"],
                     "wait_on_cuda_event_record_corr_id": rec["corr"], "wait_on_cuda_event_id": eid, "cuda_sync_kind": "Stream Wait Event"})
@@ -204,7 +204,7 @@ class Sim:
         c = self.newcorr()
         ts = th["t"]
         end = max(ts + 3, rec["done"] + 1)
-        H = self.X("cuda_runtime", self.r.choice(["cudaEventSynchronize", "cudaEventQuery"]), self.host_pid, th["tid"], ts, end - ts,
+        H = self.X("cuda_runtime", self.r.choice(["cudaEventSynchronize", "cudaEventQuery"]), th.get("pid", self.host_pid), th["tid"], ts, end - ts,
                    {"correlation": c, "cbid": 138, "External id": c})
         S = self.X("cuda_sync", "Event Sync", self.p["device_pid"], -1, ts + 1, end - ts - 2,
                    {"correlation": c, "stream": -1, "device": self.p["device_pid"], "wait_on_stream": rec["stream"],
@@ -218,7 +218,7 @@ class Sim:
         args: Dict[str, Any] = {"cbid": 20}
         if self.r.random() < 0.7:
             args["correlation"] = self.newcorr()      # non-launch runtime call that carries an id
-        self.X("cuda_runtime", self.r.choice(PLAIN_RT), self.host_pid, th["tid"], ts, dur, args)
+        self.X("cuda_runtime", self.r.choice(PLAIN_RT), th.get("pid", self.host_pid), th["tid"], ts, dur, args)
         th["t"] = ts + dur + self.d(0, 2)
 
     # ------------------------------------------------------------------ host programs (generators yield after atomic actions)
@@ -242,14 +242,14 @@ class Sim:
             if p["avoid_k1"]:                       # keep a zero-duration op clear of its neighbours' endpoints
                 th["t"] += 1
                 ts = th["t"]
-            self.X("cpu_op", self.r.choice(names), self.host_pid, th["tid"], ts, 0, {"External id": self.newcorr(True)})
+            self.X("cpu_op", self.r.choice(names), th.get("pid", self.host_pid), th["tid"], ts, 0, {"External id": self.newcorr(True)})
             if p["avoid_k1"]:
                 th["t"] += 1
             yield
             return
         cat = "user_annotation" if (p["annotation_nest"] and self.r.random() < 0.15) else "cpu_op"
         nm = self.r.choice(names) if cat == "cpu_op" else self.r.choice(["my_region", "fwd_block"])
-        e = self.X(cat, nm, self.host_pid, th["tid"], ts, 0, {"External id": self.newcorr(True)} if cat == "cpu_op" else {})
+        e = self.X(cat, nm, th.get("pid", self.host_pid), th["tid"], ts, 0, {"External id": self.newcorr(True)} if cat == "cpu_op" else {})
         th["t"] += self.d(0, 2)
         for _ in range(self.r.randint(*p["p_leaf_children"])):
             if depth < p["max_depth"] and self.r.random() < 0.4:
@@ -268,7 +268,7 @@ class Sim:
         outer = None
         if p["outer_frame"]:
             # the training loop's own frame (with_stack=True) or an outer record_function encloses everything on the main thread
-            outer = self.X(self.r.choice(["python_function", "user_annotation"]), "train.py(42): train_loop", self.host_pid, th["tid"], th["t"], 0, {})
+            outer = self.X(self.r.choice(["python_function", "user_annotation"]), "train.py(42): train_loop", th.get("pid", self.host_pid), th["tid"], th["t"], 0, {})
             outer_ts = th["t"]
             th["t"] += self.r.choice([0, 1])
         yield from self._main_body(th)
@@ -290,13 +290,13 @@ class Sim:
                 # lies inside the step's window, the host call outside
                 self.helper["t"] = ts - 1
                 (self.dev_sync if self.r.random() < 0.7 else self.stream_sync)(self.helper)
-            e = self.X("user_annotation", f"ProfilerStep#{first + k}", self.host_pid, th["tid"], ts, 0, {})
+            e = self.X("user_annotation", f"ProfilerStep#{first + k}", th.get("pid", self.host_pid), th["tid"], ts, 0, {})
             th["t"] += self.r.choice([0, 1])
             for _ in range(self.r.randint(*p["ops_per_step"])):
                 yield from self.op(th, 0, self.ops_pool)
             if p["autograd"] and self.r.random() < 0.85:
                 bts = th["t"]
-                b = self.X("user_annotation", "## backward ##" if p["bwd_annotation"] else "loss.backward", self.host_pid, th["tid"], bts, 0, {})
+                b = self.X("user_annotation", "## backward ##" if p["bwd_annotation"] else "loss.backward", th.get("pid", self.host_pid), th["tid"], bts, 0, {})
                 th["t"] += 1
                 th["bwd_window"] = bts
                 yield
@@ -336,6 +336,11 @@ class Sim:
             if i == 0:
                 prog = self.main_prog(th)
             else:
+                if p["multi_process"] and not (p["autograd"] and i == 1):
+                    # a worker in another host process of the same rank (data loader, launcher) whose thread id equals the
+                    # main thread's: threads are identified by (pid, tid)
+                    th["pid"] = self.host_pid + 100 * i
+                    th["tid"] = ths[0][0]["tid"]
                 prog = self.side_prog(th, BWD if (p["autograd"] and i == 1) else self.ops_pool)
             ths.append((th, prog))
         for s in self.streams:
@@ -355,6 +360,13 @@ class Sim:
         elif p["file_order"] == "grouped":        # Kineto-like: host ops, then runtime, then device
             order = {"cpu_op": 0, "user_annotation": 0, "cuda_runtime": 1, "cuda_driver": 1}
             evs.sort(key=lambda e: order.get(e["cat"], 2))
+        elif p["file_order"] == "by_ts":          # truly chronological: a queued kernel comes after a later launch's kernel
+            evs.sort(key=lambda e: e["ts"])
+        elif p["file_order"] == "device_by_stream":   # host in recording order, then the device records stream by stream
+            dev = [e for e in evs if e["pid"] == p["device_pid"] and e["cat"] not in ("cpu_op", "user_annotation", "cuda_runtime", "cuda_driver")]
+            ids = {id(e) for e in dev}
+            dev.sort(key=lambda e: (str(e["tid"]), e["ts"]))
+            evs = [e for e in evs if id(e) not in ids] + dev
         # event 0 of the file is a host operator (the link sentinel 0 must not denote a launch or kernel)
         first = next(i for i, e in enumerate(evs) if e["cat"] in ("cpu_op", "user_annotation"))
         evs = [evs[first]] + evs[:first] + evs[first + 1:]
@@ -439,13 +451,14 @@ def random_params(rnd: random.Random, tier: str, **over: Any) -> Dict[str, Any]:
         p_event=rnd.choice([0.0, 0.1, 0.2]), max_depth=rnd.choice([1, 3, 5]), ops_per_step=rnd.choice([(1, 2), (2, 5), (3, 8)]),
         big_corr=rnd.random() < 0.3, autograd=rnd.random() < 0.3, bwd_annotation=rnd.random() < 0.6,
         pre_ops=rnd.choice([0, 1, 2]), post_ops=rnd.choice([0, 1, 2]),
-        file_order=rnd.choice(["time", "time", "grouped", "shuffled"]), repeat_names=rnd.random() < 0.3,
+        file_order=rnd.choice(["time", "time", "grouped", "shuffled", "by_ts", "device_by_stream"]), repeat_names=rnd.random() < 0.3,
         annotation_nest=rnd.random() < 0.3, p_unlaunched=rnd.choice([0.0, 0.0, 0.1]), sync_straddle=rnd.random() < 0.3, source_counters=rnd.random() < 0.25, outer_frame=rnd.random() < 0.2, corr_zero=rnd.random() < 0.3,
     )
     p["small_corr"] = rnd.random() < 0.35 and not p["big_corr"]
     p["tid_base"] = rnd.choice([None, None, None, 33000, 40000, 140737, 2 ** 22 - 200])
     p["tid_desc"] = rnd.random() < 0.3
     p["post_launch"] = rnd.random() < 0.3
+    p["multi_process"] = rnd.random() < 0.2
     if p["autograd"]:
         p["n_threads"] = max(2, p["n_threads"])
     if tier == "thorough" and rnd.random() < 0.15:
@@ -509,4 +522,29 @@ def add_device_spans(rnd: random.Random, trace: Dict[str, Any], p: float = 0.5) 
                    "name": rnd.choice(["## forward ##", "nccl:all_reduce", "region_of_interest"]), "pid": pid, "tid": s, "ts": ts,
                    "dur": max(1, end - ts), "args": {"stream": s, "device": pid}})
         n += 1
+    return n
+
+
+def add_gpu_annotation_pairs(rnd: random.Random, trace: Dict[str, Any], p: float = 0.7) -> int:
+    """GPU-side user annotations as Kineto writes them (pid = device, tid = stream, no stream argument), in pairs of identical
+    extent with different names (a module annotation and its wrapper), each spanning a run of kernels of the stream."""
+    ev = trace["traceEvents"]
+    by_stream: Dict[Any, List[Dict[str, Any]]] = {}
+    for e in ev:
+        if e.get("ph") == "X" and e.get("cat") in ("kernel", "gpu_memcpy", "gpu_memset") and isinstance(e.get("args"), dict) and "stream" in e["args"]:
+            by_stream.setdefault((e["pid"], e["args"]["stream"]), []).append(e)
+    names = ["model.forward", "DistributedDataParallel.forward", "loss_fn", "criterion#CrossEntropy", "## backward ##", "optimizer.step", "zz_wrapper", "aa_wrapper"]
+    n = 0
+    for (pid, s), ks in sorted(by_stream.items(), key=lambda kv: str(kv[0])):
+        ks.sort(key=lambda e: e["ts"])
+        if len(ks) < 2 or rnd.random() > p:
+            continue
+        a = rnd.randrange(len(ks) - 1)
+        b = rnd.randrange(a + 1, len(ks))
+        ts = ks[a]["ts"]
+        end = max(k["ts"] + k["dur"] for k in ks[a:b + 1])
+        for nm in rnd.sample(names, 2):
+            ev.append({"ph": "X", "cat": "gpu_user_annotation", "name": nm, "pid": pid, "tid": s, "ts": ts, "dur": max(1, end - ts),
+                       "args": {"External id": 900000 + n}})
+            n += 1
     return n
